@@ -318,9 +318,23 @@ pub fn file_bytes(world: &World, f: &FileSpec) -> Vec<u8> {
 
 /// Maps (file name inside ws, byte offset in the decoded text) to (declaration index, offset
 /// inside that declaration).
+/// The file of a layout that a diagnostic's file name denotes, however the tool spells it (absolute,
+/// canonical, through store/, or relative to some working directory): the file whose name inside
+/// ws/ is the longest path suffix of the spelling.
+pub fn find_file<'a>(files: &'a [FileSpec], spelled: &str) -> Option<&'a FileSpec> {
+    let name = ws_relative(spelled);
+    if let Some(f) = files.iter().find(|f| f.name == name) {
+        return Some(f);
+    }
+    let clean = spelled.trim_start_matches("./");
+    files
+        .iter()
+        .filter(|f| clean == f.name || clean.ends_with(&format!("/{}", f.name)))
+        .max_by_key(|f| f.name.len())
+}
+
 pub fn map_offset(world: &World, files: &[FileSpec], file: &str, offset: usize) -> Option<(usize, usize)> {
-    let name = ws_relative(file);
-    let f = files.iter().find(|f| f.name == name)?;
+    let f = find_file(files, file)?;
     if f.raw.is_some() {
         return None;
     }
